@@ -30,7 +30,7 @@ from vmc.runner import Stats
 PROPERTY = 'C09'
 LEVEL = 'exploration'
 
-HARNESSES = ('shard', 'iterable', 'merged', 'range')
+HARNESSES = ('shard', 'receiver', 'iterable', 'merged', 'range')
 
 
 def val(i):
@@ -181,6 +181,24 @@ def _check_recovered(st, where, case, root, node, rows):
     st.violation(f'C09:{where}.from_state:recovered-len-differs',
                  {'case': case, 'state': repr(state), 'got': got,
                   'expected': len(rows)}, replay={'case': case})
+  # the receiver is the shard itself: a shard (its iterator, after one step)
+  # resumes from its own recorded state (all receivers x all states: see the
+  # `receiver` harness)
+  def own_iterator():
+    it = node.iterate()
+    head = [next(it) for _ in range(min(1, len(rows)))]
+    return head + list(it.from_state(it.state))
+
+  for name, fn in (
+      ('from_state(own-state)[receiver=the-shard-itself]',
+       lambda: list(node.from_state(state))),
+      ('iterate().from_state(own-state)[receiver=the-shard-itself]',
+       own_iterator)):
+    got = _try(fn)
+    if got != ('ok', rows):
+      st.violation(f'C09:{where}.{name}:recovered-shard-differs',
+                   {'case': case, 'state': repr(state), 'got': got,
+                    'expected': rows}, replay={'case': case})
 
 
 def _check_node(st, where, case, root, node, rows):
@@ -308,6 +326,241 @@ def _shard_unit(args):
 
 
 # --------------------------------------------------------------------------
+# receiver: every method of the source API on every reachable object
+# --------------------------------------------------------------------------
+
+def _make_root(split):
+  from ml_metrics._src.chainables import io
+  rows = [val(i) for i in range(sum(split))]
+  pieces = enums.cut(rows, split)
+  if len(split) == 1:
+    return io.SequenceDataSource(pieces[0])
+  return io.SequenceDataSource.from_sequences(pieces)
+
+
+def _reachable(root, depth):
+  """{path: (object, rows)}: everything reachable by <= depth shard() calls.
+
+  path = ((shard_index, num_shards, offset), ...); () is the source itself.
+  The rows of an object are what it yields itself (the laws of those rows are
+  the `shard` harness); objects that cannot be built or read are left out
+  (reported by the `shard` harness).
+  """
+  out = {}
+
+  def add(path, obj, d):
+    got = _try(lambda: list(obj))
+    if got[0] != 'ok':
+      return None
+    out[path] = (obj, got[1])
+    if d > 0:
+      for k in range(1, len(got[1]) + 3):
+        for i in range(k):
+          base = _try(lambda: obj.shard(i, k))  # pylint: disable=cell-var-from-loop
+          if base[0] != 'ok':
+            continue
+          part = add(path + ((i, k, 0),), base[1], d - 1)
+          for off in range(1, len(part or ()) + 1):
+            sub = _try(lambda: obj.shard(i, k, offset=off))  # pylint: disable=cell-var-from-loop
+            if sub[0] == 'ok':
+              add(path + ((i, k, off),), sub[1], d - 1)
+    return got[1]
+
+  add((), root, depth)
+  return out
+
+
+_LEVEL_NAME = ('source', 'shard', 'nested-shard')
+
+
+def _level_name(path):
+  return _LEVEL_NAME[min(len(path), 2)]
+
+
+def _advanced(obj, rows):
+  it = obj.iterate()
+  for _ in range(min(1, len(rows))):
+    next(it)
+  return it
+
+
+# how a receiver is derived from a reachable object
+RECEIVER_FORMS = (
+    ('SequenceDataSource', lambda root, obj, rows: obj),
+    ('SequenceIterator', lambda root, obj, rows: _advanced(obj, rows)),
+    ('restored-SequenceDataSource',
+     lambda root, obj, rows: root.from_state(obj.state)),
+)
+
+
+def check_receivers(st, split, depth, recv_depth, chunk=(0, 1)):
+  """receiver.from_state(target.state) == target, for receivers x targets."""
+  root = _make_root(split)
+  objs = _reachable(root, depth)
+  targets = [(p, _try(lambda o=o: o.state), rows)
+             for p, (o, rows) in sorted(objs.items())]
+  targets = [(p, s[1], rows) for p, s, rows in targets if s[0] == 'ok']
+  receivers = [p for p in sorted(objs) if len(p) <= recv_depth]
+  receivers = receivers[chunk[0]::chunk[1]]
+  nontrivial = sum(split) > 0
+  for rpath in receivers:
+    robj, rrows = objs[rpath]
+    for form, derive in RECEIVER_FORMS:
+      recv = _try(lambda: derive(root, robj, rrows))  # pylint: disable=cell-var-from-loop
+      if recv[0] != 'ok':
+        continue  # the derivation itself is checked by the `shard` harness
+      recv = recv[1]
+      sized = form != 'SequenceIterator'
+      where = f'{form}({_level_name(rpath)}).from_state'
+      for tpath, tstate, trows in targets:
+        case = ('receiver', split, rpath, form, tpath)
+        st.case(case, nontrivial=nontrivial)
+
+        def rebuild():
+          got = recv.from_state(tstate)  # pylint: disable=cell-var-from-loop
+          return (len(got) if sized else None), list(got)  # pylint: disable=cell-var-from-loop
+
+        got = _try(rebuild)
+        st.outcome((form, len(rpath), got))
+        if got != ('ok', (len(trows) if sized else None, trows)):
+          st.violation(
+              f'C09:{where}:recovered-object-differs',
+              {'case': case, 'target': _level_name(tpath),
+               'receiver_yields': rrows, 'state': repr(tstate),
+               'got (len, rows)': got, 'expected_rows': trows},
+              replay={'case': ('receiver', split, depth, recv_depth)})
+
+
+def check_restored_api(st, split, depth):
+  """shard()/len()/state of a *restored* object == those of the original."""
+  root = _make_root(split)
+  objs = _reachable(root, depth)
+  restored = {}
+  for path, (_, rows) in sorted(objs.items()):
+    if not path:
+      continue
+    parent, (i, k, off) = path[:-1], path[-1]
+    if parent not in restored:
+      restored[parent] = _try(
+          lambda: root.from_state(objs[parent][0].state))  # pylint: disable=cell-var-from-loop
+    if restored[parent][0] != 'ok':
+      continue
+    rparent = restored[parent][1]
+    case = ('restored-api', split, path)
+    st.case(case, nontrivial=sum(split) > 0)
+
+    def via_restored():
+      sub = rparent.shard(i, k, offset=off) if off else rparent.shard(i, k)  # pylint: disable=cell-var-from-loop
+      return len(sub), list(sub), list(root.from_state(sub.state))
+
+    got = _try(via_restored)
+    st.outcome(('restored-api', got))
+    if got != ('ok', (len(rows), rows, rows)):
+      st.violation(
+          f'C09:SequenceDataSource.from_state({_level_name(parent)}-state)'
+          '.shard:differs-from-shard-of-the-original',
+          {'case': case, 'got (len, rows, rows rebuilt from its state)': got,
+           'expected_rows': rows},
+          replay={'case': ('restored-api', split, depth)})
+
+
+def _multiplex_receivers(iter_utils, used, shards):
+  """Multiplex iterators whose from_state must be interchangeable."""
+  k = len(shards)
+  yield 'itself', lambda: used
+  yield 'unused', lambda: iter_utils.MultiplexIterator(data_sources=shards)
+  if k > 1:
+    # every state is rebuilt by a sibling shard
+    yield 'over-rotated-siblings', lambda: iter_utils.MultiplexIterator(
+        data_sources=shards[1:] + shards[:1])
+
+
+def check_multiplex(st, driver, case, shards, parts):
+  """MultiplexIterator over all shards of one object: stop after h, resume."""
+  from ml_metrics._src.utils import iter_utils
+  rows = list(itt.chain.from_iterable(parts))
+  for h in range(len(rows) + 1):
+    hcase = case + (h,)
+    st.case(hcase, nontrivial=bool(rows))
+
+    def stop_after_h():
+      it = iter_utils.MultiplexIterator(data_sources=shards)
+      head = [next(it) for _ in range(h)]  # pylint: disable=cell-var-from-loop
+      return it, head, it.state
+
+    first = _try(stop_after_h)
+    if first[0] != 'ok':
+      st.violation(f'C09:MultiplexIterator({driver}-shards).state:raise',
+                   {'case': hcase, 'got': first}, replay={'case': case})
+      continue
+    used, head, states = first[1]
+    for name, recv in _multiplex_receivers(iter_utils, used, shards):
+      got = _try(lambda: head + list(recv().from_state(states)))  # pylint: disable=cell-var-from-loop
+      st.outcome(('multiplex', name, got))
+      if got != ('ok', rows):
+        st.violation(
+            f'C09:MultiplexIterator({driver}-shards).from_state({name}):'
+            'resumed-rows-differ',
+            {'case': hcase, 'receiver': name, 'states': repr(states),
+             'got': got, 'expected': rows}, replay={'case': case})
+
+
+def check_multiplex_sequence(st, split, depth):
+  """Every reachable object of depth < `depth`, sharded k ways, multiplexed."""
+  root = _make_root(split)
+  objs = _reachable(root, depth)
+  for path, (_, rows) in sorted(objs.items()):
+    if len(path) >= depth:
+      continue
+    for k in range(1, len(rows) + 3):
+      kids = [objs.get(path + ((i, k, 0),)) for i in range(k)]
+      if any(kid is None for kid in kids):
+        continue
+      check_multiplex(st, 'SequenceDataSource',
+                      ('multiplex', split, path, k),
+                      [kid[0] for kid in kids], [kid[1] for kid in kids])
+
+
+def _receiver_unit(args):
+  kind, split, depth, recv_depth, chunk, want_sample = args
+  st = Stats()
+  with _Deadline(900):
+    if kind == 'receiver':
+      check_receivers(st, split, depth, recv_depth, chunk)
+    else:
+      check_restored_api(st, split, depth)
+      check_multiplex_sequence(st, split, depth)
+  if want_sample:
+    from ml_metrics._src.utils import iter_utils
+    root = _make_root(split)
+    k = 2
+    shards = [root.shard(i, k) for i in range(k)]
+    target = shards[0].shard(0, 2)
+
+    def multiplexed():
+      it = iter_utils.MultiplexIterator(data_sources=shards)
+      head = [next(it) for _ in range(min(1, sum(split)))]
+      return head, repr(it.state), list(it.from_state(it.state))
+
+    st.sample({
+        'driver': 'from_state on a receiver that is itself a shard',
+        'sub_sequence_sizes': split, 'k': k,
+        'shards': _try(lambda: [list(s) for s in shards]),
+        'target': 'shard(0,2).shard(0,2)',
+        'target_rows': _try(lambda: list(target)),
+        'shard(1,2).from_state(target.state)': _try(
+            lambda: list(shards[1].from_state(target.state))),
+        'shard(1,2).iterate().from_state(target.state)': _try(
+            lambda: list(shards[1].iterate().from_state(target.state))),
+        'multiplex (head, states, resumed)': _try(multiplexed),
+        'explored_for_this_source': (
+            f'every object reachable by <= {recv_depth} shard() calls (as '
+            'source, as iterator after one step, restored from its state) x '
+            f'the state of every object reachable by <= {depth} calls')})
+  return st
+
+
+# --------------------------------------------------------------------------
 # iterable: ShardedIterable (round robin, single level)
 # --------------------------------------------------------------------------
 
@@ -372,6 +625,38 @@ def _iterable_unit(args):
                   f'C09:ShardedIterable.{name}:recovered-shard-differs',
                   {'case': case + (i,), 'state': repr(state), 'got': rec,
                    'expected': part}, replay={'case': case})
+        # receivers that are themselves shards: every shard j (as a source,
+        # as its iterator after one step, restored from its state) rebuilds
+        # every shard i
+        for j, (recv_shard, recv_part) in enumerate(zip(shards, parts)):
+          forms = (
+              ('ShardedIterable', lambda: recv_shard),
+              ('DataIterator', lambda: _advanced(recv_shard, recv_part)),
+              ('restored-ShardedIterable',
+               lambda: root.from_state(recv_shard.state)),
+          )
+          for form, derive in forms:
+            recv = _try(derive)
+            if recv[0] != 'ok':
+              st.violation(f'C09:{form}(shard):raise',
+                           {'case': case + (j,), 'got': recv},
+                           replay={'case': case})
+              continue
+            recv = recv[1]
+            for i, (shard, part) in enumerate(zip(shards, parts)):
+              st.case(('iterable-receiver', n, kind, k, j, form, i),
+                      nontrivial=n > 0)
+              state = shard.state
+              rec = _try(lambda: list(recv.from_state(state)))  # pylint: disable=cell-var-from-loop
+              st.outcome(('iterable-receiver', form, rec))
+              if rec != ('ok', part):
+                st.violation(
+                    f'C09:{form}(shard).from_state:recovered-shard-differs',
+                    {'case': case + (j, i), 'state': repr(state),
+                     'receiver_yields': recv_part, 'got': rec,
+                     'expected': part}, replay={'case': case})
+        check_multiplex(st, 'ShardedIterable', ('iterable-multiplex', n, kind, k),
+                        shards, parts)
   if want_sample:
     rows = [val(i) for i in range(5)]
     root = io.ShardedIterable(rows)
@@ -634,6 +919,12 @@ def _splits(max_n, max_parts):
   return out
 
 
+def _unit(item):
+  """Dispatches one work unit (name of the unit function, its argument)."""
+  name, args = item
+  return globals()[name](args)
+
+
 def run(ctx):
   quick = ctx.quick
   only = getattr(ctx, 'only', None) or HARNESSES
@@ -642,6 +933,9 @@ def run(ctx):
   n_deep = 5 if quick else 8         # nesting depth 3
   n_multi, p_multi = (5, 3) if quick else (7, 4)   # from_sequences splits
   n_merged, p_merged = (5, 4) if quick else (7, 5)
+  # receivers: (max n, nesting depth of the targets, of the receivers)
+  recv_single = ((2, 2, 2), (3, 2, 1)) if quick else ((3, 2, 2), (6, 2, 1))
+  recv_multi = ((1, 2, 2), (2, 2, 1)) if quick else ((2, 2, 2), (4, 2, 1))
   mbss = (1, 2, 3, 64)
   n_range = 6 if quick else 10
   range_mbss = (1, 2, 3, 4, 5, 8, 16, 64)
@@ -650,7 +944,23 @@ def run(ctx):
       f'2), n<={n_deep} (depth 3), and every split of n<={n_multi} rows into '
       f'<={p_multi} possibly empty sub-sequences (from_sequences, depth 2) x '
       'every k in 1..len+2 x every shard index x every offset 0..len at every '
-      f'level; ShardedIterable: n<={n_single} x k in 1..n+2 x 3 containers; '
+      'level, each rebuilt from its state through the source and through '
+      'itself; receivers (from_state / shard / len / iterate invoked on an '
+      'object that is itself a shard, a nested shard, an iterator or restored): '
+      'O_d = every object reachable by <= d shard(i,k,offset) calls; every '
+      'receiver in O_r {as source, as iterator after one step, restored from '
+      'its own state} x the state of every target in O_2 must rebuild the '
+      f'target (rows, len), with r=2 for n<={recv_single[0][0]} and r=1 for '
+      f'n<={recv_single[1][0]} (single sequence), r=2 for n<='
+      f'{recv_multi[0][0]} and r=1 for n<={recv_multi[1][0]} (every split into '
+      '2 possibly empty sub-sequences); shard/len/state of every restored '
+      'object of O_1 == those of the original; MultiplexIterator over the k '
+      'shards of every object of O_1 (and of a ShardedIterable) x stopped '
+      'after every h in 0..len x from_state invoked on {itself, an unused '
+      'multiplex, a multiplex over the rotated sibling shards}; '
+      f'ShardedIterable: n<={n_single} x k in 1..n+2 x 3 containers, every '
+      'shard j {source, iterator after one step, restored} x state of every '
+      'shard i; '
       f'MergedSequences: every split of n<={n_merged} rows into <={p_merged} '
       'possibly empty sub-sequences (and zero sub-sequences) x {list, tuple, '
       'index-only} x every index in [-n-1,n] x every slice bound pair in '
@@ -669,6 +979,7 @@ def run(ctx):
       'an unreadable element raises ValueError; a sliceable container fails a '
       'slice read eagerly (nothing of the slice is returned)',
   ]
+  work = []
   if 'shard' in only:
     units = []
     singles = [(n,) for n in range(n_single + 1)]
@@ -680,19 +991,33 @@ def run(ctx):
     for u in enums.chunks(ctx.shuffled(multi), 48):
       units.append((u, 2, True))
     units = sorted(units, key=lambda u: -sum(map(sum, u[0])))   # big first
-    ctx.pmap(_shard_unit, [u + (i == 0 or u == ([(n_deep,)], 3, True),)
-                           for i, u in enumerate(units)])
+    work += [('_shard_unit', u + (i == 0 or u == ([(n_deep,)], 3, True),))
+             for i, u in enumerate(units)]
     ctx.notes['shard_source_splits'] = len(singles) + len(multi)
+  if 'receiver' in only:
+    units = []
+    for bounds, parts in ((recv_single, 1), (recv_multi, 2)):
+      (n_full, depth, r_full), (n_max, _, r_part) = bounds
+      for n in range(n_max + 1):
+        for split in enums.weak_compositions(n, parts):
+          r = r_full if n <= n_full else r_part
+          m = max(1, min(16, ((n + 1) ** (2 * r)) // 16))
+          for j in range(m):
+            units.append(('receiver', split, depth, r, (j, m)))
+          units.append(('api', split, depth, r, (0, 1)))
+    units = sorted(units, key=lambda u: (-sum(u[1]), u[0] != 'receiver'))
+    work += [('_receiver_unit', u + (i == 0,)) for i, u in enumerate(units)]
+    ctx.notes['receiver_units'] = len(units)
   if 'iterable' in only:
     kinds = ('list', 'tuple', 're-iterable')
     ns = list(range(n_single + 1))
-    ctx.pmap(_iterable_unit, [(u, kinds, i == 0) for i, u in
-                              enumerate(enums.chunks(ns, 8))])
+    work += [('_iterable_unit', (u, kinds, i == 0)) for i, u in
+             enumerate(enums.chunks(ns, 8))]
   if 'merged' in only:
     splits = [()] + _splits(n_merged, p_merged)
     kinds = ('list', 'tuple', 'index-only')
-    ctx.pmap(_merged_unit, [(u, kinds, mbss, i == 0) for i, u in enumerate(
-        enums.chunks(ctx.shuffled(splits), 64))])
+    work += [('_merged_unit', (u, kinds, mbss, i == 0)) for i, u in enumerate(
+        enums.chunks(ctx.shuffled(splits), 64))]
     ctx.notes['merged_splits'] = len(splits)
   if 'range' in only:
     cases = [(n, bad) for n in range(1, n_range + 1) for bad in range(n)]
@@ -702,7 +1027,9 @@ def run(ctx):
     units += [([], range_mbss, u) for u in
               enums.chunks(ctx.shuffled(msplits), 32)]
     units = [u + (i == len(cases) - 1,) for i, u in enumerate(units)]
-    ctx.pmap(_range_unit, ctx.shuffled(units))
+    work += [('_range_unit', u) for u in ctx.shuffled(units)]
+  # one pool for all harnesses (the big shard units first, see above)
+  ctx.pmap(_unit, work)
 
 
 def replay(ctx, data):
@@ -713,7 +1040,13 @@ def replay(ctx, data):
     split = tup(case[1])
     depth = max(2, len(case[2]) + 1) if kind == 'shard' else 2
     ctx.merge(_shard_unit(([split], depth, True, False)))
-  elif kind == 'iterable':
+  elif kind == 'receiver':
+    check_receivers(ctx, tup(case[1]), case[2], case[3])
+  elif kind == 'restored-api':
+    check_restored_api(ctx, tup(case[1]), case[2])
+  elif kind == 'multiplex':
+    check_multiplex_sequence(ctx, tup(case[1]), max(2, len(case[2]) + 1))
+  elif kind in ('iterable', 'iterable-multiplex'):
     ctx.merge(_iterable_unit(([case[1]], (case[2],), False)))
   elif kind == 'merged':
     check_merged(ctx, tup(case[1]), case[2], case[3],
